@@ -27,6 +27,7 @@ PARTNER = {"x": "y", "y": "x", "rho": "phi", "phi": "rho"}
 POS = {"x": 0, "y": 1, "rho": 0, "phi": 1}
 SUFFIX2SYS = {"XY": "xy", "RhoPhi": "rhophi", "Z": "z", "Theta": "theta", "Eta": "eta", "T": "t", "Tau": "tau"}
 GROUPS = ("azimuthal", "longitudinal", "temporal")
+ALLNAMES = {2: ["x", "y", "rho", "phi"], 3: ["z", "theta", "eta"], 4: ["t", "tau"]}
 
 
 # --------------------------------------------------------------------------- generation
@@ -297,6 +298,24 @@ def _num_close(a, b, angle=False):
     return abs(a - b) <= 1e-12 * max(abs(a), abs(b)) + 1e-300
 
 
+def _roughly(a, b, scale):
+    """Derived coordinates may amplify a last-bit difference of the stored ones (cancellation in tau, eta near the
+    axis): a stale or wrong value differs grossly, rounding does not."""
+    try:
+        a, b = float(a), float(b)
+    except Exception:
+        return False
+    return abs(a - b) <= 1e-7 * max(abs(a), abs(b)) + 1e-7 * scale
+
+
+def _both_nonfinite(a, b):
+    try:
+        a, b = float(a), float(b)
+    except Exception:
+        return False
+    return (a != a or math.isinf(a)) and (b != b or math.isinf(b))
+
+
 def _viol(inv, aspect, step_i, step, detail):
     site = f"S:{step_i}:{step['s']}:{step.get('op') or step.get('name')}"
     return {"prop": "C15", "inv": inv, "aspect": aspect, "site": site, "pass": "hist", "detail": str(detail)[:600]}
@@ -491,6 +510,21 @@ def run_case(case, vector):
             for q, (a, b) in enumerate(zip(els, xels)):
                 if not _num_close(a, b, angle=(_suffix(cn) == "RhoPhi" and q == 1)):
                     viol.append(_viol("I5", "inplace-differs-from-functional", i, st, f"{g}[{q}]: in-place {a!r} functional {b!r}"))
+        # every coordinate *getter* (stored or derived) must agree with the functional result too: a derived value
+        # memoised before the update must not survive it
+        try:
+            scale_ = max([1.0] + [abs(float(e)) for _, _, els in after for e in els if abs(float(e)) < 1e300])
+        except Exception:
+            scale_ = 1.0
+        for d_ in range(2, len(after) + 2):
+            for nm in ALLNAMES[d_]:
+                try:
+                    gv, ge = getattr(v, nm), getattr(expected, nm)
+                except Exception:
+                    continue
+                if not _num_close(gv, ge, angle=(nm == "phi")) and not _both_nonfinite(gv, ge) and not _roughly(gv, ge, scale_):
+                    # theta / eta / tau of the functional twin may legitimately differ by rounding only
+                    viol.append(_viol("I5", "getter-differs-from-functional", i, st, f"{nm}: in-place {gv!r} functional {ge!r}"))
         if arg_before is not None and state_bits(arg) != arg_before:
             viol.append({"prop": "C16", "inv": "I2", "aspect": "vobj:operand-of-inplace", "site": f"S:{i}:{kind}:{opn}", "pass": "hist",
                          "detail": "right-hand operand modified"})
